@@ -173,8 +173,12 @@ struct Case {
   fee_rate: &'static str,
 }
 
-fn gen_case(rng: &mut Rng, s: &mut Setup, snap: &[WOut], dist: &mut Dist, force_dup: bool) -> Case {
+fn gen_case(rng: &mut Rng, s: &mut Setup, snap: &[WOut], dist: &mut Dist, force: u8) -> Case {
+  let force_dup = force == 1;
   let mode = *rng.pick(&[Mode::SameSat, Mode::SatPoints, Mode::Separate, Mode::Shared]);
+  // force 2: ask for a reinscription inside an output that carries several inscriptions
+  let force_shared = force == 2 && snap.iter().any(|o| !o.locked && o.ins.iter().any(|(sp, _)| *sp != o.ins[0].0));
+  let mode = if force_shared { Mode::SameSat } else { mode };
   let n = 1 + rng.below(5) as usize;
   let inscribed: Vec<&WOut> = snap.iter().filter(|o| !o.ins.is_empty() && !o.locked).collect();
   let cardinals: Vec<&WOut> = snap.iter().filter(|o| o.ins.is_empty() && o.runes == 0 && !o.locked && o.value > 0).collect();
@@ -233,16 +237,28 @@ fn gen_case(rng: &mut Rng, s: &mut Setup, snap: &[WOut], dist: &mut Dist, force_
   let mut same_sat_satpoint = None;
   let mut reinscribe = false;
   if mode == Mode::SameSat {
-    match rng.below(6) {
+    match if force_shared { 1 } else { rng.below(6) } {
       0 if !cardinals.is_empty() => {
         let o = *rng.pick(&cardinals);
         same_sat_satpoint = Some(SatPoint { outpoint: o.op, offset: *rng.pick(&[0u64, 0, 1]) });
         dist.hit("same_sat_explicit");
       }
-      1 if !inscribed.is_empty() => {
-        // reinscription of a sat of the wallet (an output with a single inscribed satpoint)
+      1 | 2 if !inscribed.is_empty() => {
+        // reinscription of a sat of the wallet: mostly an output with a single inscribed
+        // satpoint; one time in two an output with several inscribed satpoints, so that outputs carrying further
+        // inscriptions at other offsets (what a shared-output batch leaves behind) are asked for
+        // too — the planner must refuse those or leave the other inscriptions alone
         let single: Vec<&&WOut> = inscribed.iter().filter(|o| o.ins.len() == 1 && !used.contains(&o.op)).collect();
-        if !single.is_empty() {
+        let multi: Vec<&&WOut> = inscribed
+          .iter()
+          .filter(|o| !used.contains(&o.op) && o.ins.iter().any(|(sp, _)| *sp != o.ins[0].0))
+          .collect();
+        if !multi.is_empty() && (force_shared || rng.chance(1, 2)) {
+          let o = **rng.pick(&multi);
+          same_sat_satpoint = Some(rng.pick(&o.ins).0);
+          reinscribe = true;
+          dist.hit("reinscribe_shared_utxo");
+        } else if !single.is_empty() {
           let o = **rng.pick(&single);
           same_sat_satpoint = Some(o.ins[0].0);
           reinscribe = true;
@@ -391,6 +407,7 @@ fn classify(msg: &str) -> &'static str {
     ("would be dust", "dust"),
     ("below dust value", "dust"),
     ("already inscribed", "already-inscribed"),
+    ("without also sending inscription", "additional-inscriptions"),
     ("reinscribe flag set", "not-a-reinscription"),
     ("wallet contains no cardinal utxos", "no-cardinals"),
     ("not enough cardinal utxos", "not-enough-cardinals"),
@@ -442,9 +459,9 @@ fn mine_mempool(w: &World) -> Vec<Transaction> {
   txs
 }
 
-fn one_case(s: &mut Setup, cap: &mut StdoutCapture, rng: &mut Rng, out: &mut Streams, dist: &mut Dist, tag: u64, force_dup: bool) {
+fn one_case(s: &mut Setup, cap: &mut StdoutCapture, rng: &mut Rng, out: &mut Streams, dist: &mut Dist, tag: u64, force: u8) {
   let snap = snapshot(&s.w);
-  let c = gen_case(rng, s, &snap, dist, force_dup);
+  let c = gen_case(rng, s, &snap, dist, force);
   let ops = input_ops(&c);
   let mut reveal_unminable = false;
   let dir = s.w.scratch.path().to_path_buf();
@@ -584,10 +601,16 @@ fn one_case(s: &mut Setup, cap: &mut StdoutCapture, rng: &mut Rng, out: &mut Str
   }));
   out.emit(&format!("batch.oracle.parents {} {parents}", c.parents.len()), "true");
   // ---- the commit spends no inscribed or runic output (other than a reinscribed sat's)
+  // first digit: 0 = not inscribed, 1 = inscribed only on the sat being reinscribed, 2 = carries an
+  // inscription anywhere else (never allowed: the commit would move it)
   let commit_flags = nums(commit.input.iter().map(|i| {
     let pre = snap.iter().find(|o| o.op == i.previous_output);
     match pre {
-      Some(o) => format!("{}{}{}", u8::from(!o.ins.is_empty()), u8::from(o.runes > 0), u8::from(o.locked)),
+      Some(o) => {
+        let foreign = o.ins.iter().any(|(sp, _)| !(c.reinscribe && Some(*sp) == c.same_sat_satpoint));
+        let ins = if o.ins.is_empty() { 0 } else if foreign { 2 } else { 1 };
+        format!("{ins}{}{}", u8::from(o.runes > 0), u8::from(o.locked))
+      }
       None => "???".into(),
     }
   }));
@@ -644,7 +667,7 @@ fn main() {
         let mut prng = Rng::new(toks[1].parse().unwrap());
         let mut s = build_world(&scratch, &mut prng);
         out.emit(&line, "ok");
-        one_case(&mut s, &mut cap, &mut prng, &mut out, &mut dist, 0, true);
+        one_case(&mut s, &mut cap, &mut prng, &mut out, &mut dist, 0, 1);
         s.w.stop();
       } else if toks[0] == "batch.layout.dry" || toks[0].starts_with("batch.oracle.") {
         // regenerated by the probe line above; stale copies are dropped
@@ -662,8 +685,10 @@ fn main() {
       let mut s = build_world(&scratch, &mut rng);
       dist.hit("world");
       let n = per_world.min(args.cases - done);
-      for _ in 0..n {
-        one_case(&mut s, &mut cap, &mut rng, &mut out, &mut dist, done, false);
+      for k in 0..n {
+        // the last case of every world asks for a reinscription inside a shared output, if
+        // the world has one by then
+        one_case(&mut s, &mut cap, &mut rng, &mut out, &mut dist, done, if k + 1 == n && n > 2 { 2 } else { 0 });
         done += 1;
       }
       s.w.stop();
